@@ -185,7 +185,13 @@ pub fn gen_ctor(rng: &mut Rng, sw: &Swarm) -> Op {
             .lit(gen_lit(rng, sw.big)),
         8 => Op::new("u.ones").dst(d).n(gen_bits(rng, sw.big) as i64),
         9 => Op::new(if rng.chance(1, 2) { "u.static" } else { "i.static" }).dst(d).n(rng.below(8) as i64).form(rng.below(3)),
-        10 => Op::new("u.pow2").dst(d).n(gen_bits(rng, sw.big) as i64),
+        10 => {
+            if rng.chance(1, 2) {
+                Op::new("u.pow2").dst(d).n(gen_bits(rng, sw.big) as i64)
+            } else {
+                Op::new("u.sparse").dst(d).n(rng.next() as i64).m(rng.below(4) as i64).form(rng.below(2))
+            }
+        }
         _ => Op::new("i.bytes_lit").dst(d).form(rng.below(2)).lit(gen_lit(rng, sw.big)),
     }
 }
